@@ -11,9 +11,11 @@
     concatenation over the transcripts of the C15 gaps of their start-ordered exons; column form: one
     `(prev.end + 1, next.start - 1)` per consecutive pair on one seqid with a base between.
   * `splice_sites_exact` (`_of_exon_ids`), `splice_sites_count`, `siteOf_geometry`, `siteOf_id`,
-    `spliceType_spec`, `splice_sites_keyerror`, `introns_have_id`, `intron_attrs_nomerge`.
-  Finding: with `merge_attributes=False` the introns have no attributes, so `create_splice_sites` raises
-  `KeyError` on `attributes["ID"][0]` whenever a transcript has an intron (last example).
+    `siteOf_noid`, `spliceType_spec`, `splice_sites_nomerge`, `splice_sites_indexerror`, `introns_have_id`,
+    `intron_attrs_nomerge`.
+  History: before the repair of gffutils (`if "ID" in splice_site.attributes:`), `merge_attributes=False`
+  made `create_splice_sites` raise `KeyError` on `attributes["ID"][0]` whenever a transcript had an intron;
+  the model follows the repaired code and `splice_sites_nomerge` states the repaired behaviour.
   Core Lean only.
 -/
 import GffModel.DbExport
@@ -88,14 +90,18 @@ def rowGap (newType : Str) (pn : Row × Row) : Option Cols :=
 def cols (g : Feature) : Cols := ⟨g.seqid, g.start, g.stop, g.ftype, g.strand, g.source⟩
 
 /-- the splice site made from intron `g`: two bases at its left (`[start, start+1]`) or right
-(`[end-1, end]`) end, typed `nt`, `ID` prefixed with `nt_` -/
+(`[end-1, end]`) end, typed `nt`; when the intron carries an `ID` its first value is prefixed with `nt_`,
+an intron without `ID` (`merge_attributes=False`) keeps its attributes unchanged
+(`if "ID" in splice_site.attributes:`).  An empty `ID` list is outside this specification (Python:
+`IndexError`, see `splice_sites_indexerror`). -/
 def siteOf (left : Bool) (nt : Str) (g : Feature) : Feature :=
   { g with
     ftype := nt,
     start := if left then g.start else g.stop.map (· - 1),
     stop := if left then g.start.map (· + 1) else g.stop,
-    attrs := Dict.set g.attrs "ID".toList
-      [nt ++ ['_'] ++ ((Dict.get? g.attrs "ID".toList).getD []).headD []] }
+    attrs := match Dict.get? g.attrs "ID".toList with
+      | some (v :: _) => Dict.set g.attrs "ID".toList [nt ++ ['_'] ++ v]
+      | _ => g.attrs }
 
 /-- the sites of one side, transcript by transcript -/
 def sitesOfSide (s : Session) (exonType newType : Str) (mergeAttrs numeric : Bool) (ts : List Row)
@@ -351,7 +357,7 @@ def siteM (left : Bool) (nt : Str) (g : Feature) : Py Feature := do
   match g.attrs.get? "ID".toList with
   | some (v :: _) => pure { g with attrs := Dict.set g.attrs "ID".toList [nt ++ ['_'] ++ v] }
   | some [] => throw PyErr.index
-  | none => throw PyErr.key
+  | none => pure g
 
 /-- one side of `create_splice_sites` -/
 def sideM (s : Session) (exonType : Str) (mergeAttrs numeric : Bool) (ts : List Row) (left : Bool) :
@@ -412,18 +418,36 @@ theorem siteM_ok (left : Bool) (nt : Str) (g : Feature) (a b : Int) (v : Str) (v
   unfold siteM siteOf
   cases left <;> simp [ha, hb, hid', bind, Except.bind, pure, Except.pure]
 
-/-- one intron without `ID` -/
-theorem siteM_key (left : Bool) (nt : Str) (g : Feature) (a b : Int)
+/-- one intron without `ID`: the attributes are left alone (pre-repair code: `KeyError`) -/
+theorem siteM_none (left : Bool) (nt : Str) (g : Feature) (a b : Int)
     (ha : g.start = some a) (hb : g.stop = some b) (hid : Dict.get? g.attrs "ID".toList = none) :
-    siteM left nt { g with ftype := nt } = .error .key := by
+    siteM left nt { g with ftype := nt } = .ok (siteOf left nt g) := by
   have hid' : Dict.get? g.attrs ['I', 'D'] = none := hid
+  unfold siteM siteOf
+  cases left <;> simp [ha, hb, hid', bind, Except.bind, pure, Except.pure]
+
+/-- one intron with an empty `ID` list: `attributes["ID"][0]` is an `IndexError` -/
+theorem siteM_index (left : Bool) (nt : Str) (g : Feature) (a b : Int)
+    (ha : g.start = some a) (hb : g.stop = some b) (hid : Dict.get? g.attrs "ID".toList = some []) :
+    siteM left nt { g with ftype := nt } = .error .index := by
+  have hid' : Dict.get? g.attrs ['I', 'D'] = some [] := hid
   unfold siteM
   cases left <;> simp [ha, hb, hid', bind, Except.bind, pure, Except.pure, throw, throwThe, MonadExceptOf.throw]
+
+/-- no intron has an `ID` attribute with an EMPTY value list (an intron may have no `ID` at all) -/
+def NoEmptyId (s : Session) (exonType : Str) (mergeAttrs numeric : Bool) (ts : List Row) : Prop :=
+  ∀ t ∈ ts, ∀ g ∈ intronsOf s exonType [] mergeAttrs numeric t, Dict.get? g.attrs "ID".toList ≠ some []
 
 /-- every intron carries an `ID` with at least one value -/
 def IntronsHaveId (s : Session) (exonType : Str) (mergeAttrs numeric : Bool) (ts : List Row) : Prop :=
   ∀ t ∈ ts, ∀ g ∈ intronsOf s exonType [] mergeAttrs numeric t,
     ∃ v vs, Dict.get? g.attrs "ID".toList = some (v :: vs)
+
+theorem noEmptyId_of_haveId {s : Session} {exonType : Str} {mergeAttrs numeric : Bool} {ts : List Row}
+    (h : IntronsHaveId s exonType mergeAttrs numeric ts) : NoEmptyId s exonType mergeAttrs numeric ts := by
+  intro t ht g hg hc
+  obtain ⟨v, vs, hv⟩ := h t ht g hg
+  rw [hv] at hc; cases hc
 
 theorem intronsOf_retype (s : Session) (exonType a b : Str) (mergeAttrs numeric : Bool) (t : Row) :
     intronsOf s exonType b mergeAttrs numeric t =
@@ -431,7 +455,7 @@ theorem intronsOf_retype (s : Session) (exonType a b : Str) (mergeAttrs numeric 
   gapsOf_retype (interCfg s) (intronOpts a mergeAttrs numeric) b _
 
 theorem sideM_ok (s : Session) (exonType newType : Str) (mergeAttrs numeric : Bool) (ts : List Row) (left : Bool)
-    (hc : ExonCoords s exonType) (hid : IntronsHaveId s exonType mergeAttrs numeric ts) :
+    (hc : ExonCoords s exonType) (hid : NoEmptyId s exonType mergeAttrs numeric ts) :
     sideM s exonType mergeAttrs numeric ts left =
       .ok (sitesOfSide s exonType newType mergeAttrs numeric ts left) := by
   unfold sideM sitesOfSide
@@ -448,17 +472,23 @@ theorem sideM_ok (s : Session) (exonType newType : Str) (mergeAttrs numeric : Bo
     have hg0 : ({ g with ftype := [] } : Feature) ∈ intronsOf s exonType [] mergeAttrs numeric t := by
       rw [intronsOf_retype s exonType newType []]
       exact List.mem_map_of_mem hg
-    obtain ⟨v, vs, hv⟩ := hid t ht _ hg0
-    exact siteM_ok left _ g a b v vs ha hb hv
+    have hne := hid t ht _ hg0
+    cases hv : Dict.get? g.attrs "ID".toList with
+    | none => exact siteM_none left _ g a b ha hb hv
+    | some l =>
+      cases l with
+      | nil => exact absurd hv hne
+      | cons v vs => exact siteM_ok left _ g a b v vs ha hb hv
 
-/-- **`splice_sites_exact`**: for exons stored with integer coordinates and introns that all carry an
-`ID`, `create_splice_sites` returns all left sites followed by all right sites; the left (right) sites
-of a transcript are its introns (those of `create_introns`, whatever `new_featuretype`) mapped to
-`[start, start+1]` (`[end-1, end]`), typed `spliceType side strand` with `ID` prefixed by that type.
+/-- **`splice_sites_exact`**: for exons stored with integer coordinates, provided no intron has an `ID`
+attribute with an empty value list, `create_splice_sites` returns all left sites followed by all right
+sites; the left (right) sites of a transcript are its introns (those of `create_introns`, whatever
+`new_featuretype`) mapped to `[start, start+1]` (`[end-1, end]`), typed `spliceType side strand`, with
+`ID` prefixed by that type when the intron has an `ID` and the attributes unchanged when it has none.
 The argument check fails with `ValueError` as in `create_introns`. -/
 theorem splice_sites_exact (s : Session) (exonType newType : Str) (gp pt : Option Str)
     (mergeAttrs numeric : Bool) (hc : ExonCoords s exonType)
-    (hid : ∀ ts, transcripts s gp pt = .ok ts → IntronsHaveId s exonType mergeAttrs numeric ts) :
+    (hid : ∀ ts, transcripts s gp pt = .ok ts → NoEmptyId s exonType mergeAttrs numeric ts) :
     createSpliceSites s exonType gp pt mergeAttrs numeric =
       (SpecTranscripts s gp pt).map (fun ts =>
         sitesOfSide s exonType newType mergeAttrs numeric ts true ++
@@ -484,7 +514,7 @@ theorem sitesOfSide_length (s : Session) (exonType newType : Str) (mergeAttrs nu
 /-- **two sites per intron**: the number of splice sites is twice the number of introns -/
 theorem splice_sites_count (s : Session) (exonType newType : Str) (gp pt : Option Str)
     (mergeAttrs numeric : Bool) (hc : ExonCoords s exonType)
-    (hid : ∀ ts, transcripts s gp pt = .ok ts → IntronsHaveId s exonType mergeAttrs numeric ts)
+    (hid : ∀ ts, transcripts s gp pt = .ok ts → NoEmptyId s exonType mergeAttrs numeric ts)
     (introns sites : List Feature)
     (hi : createIntrons s exonType gp pt newType mergeAttrs numeric = .ok introns)
     (hs : createSpliceSites s exonType gp pt mergeAttrs numeric = .ok sites) :
@@ -515,23 +545,28 @@ theorem siteOf_id (left : Bool) (nt : Str) (g : Feature) (v : Str) (vs : List St
     Dict.get? (siteOf left nt g).attrs "ID".toList = some [nt ++ ['_'] ++ v] ∧
     ∀ k, k ≠ "ID".toList → Dict.get? (siteOf left nt g).attrs k = Dict.get? g.attrs k := by
   unfold siteOf
-  simp only [hid, Option.getD_some, List.headD_cons]
+  simp only [hid]
   exact ⟨get_set_eq' _ _ _, fun k hk => get_set_ne' _ _ _ _ hk⟩
 
-/-- **`KeyError`**: when the arguments are right, exons have integer coordinates, no intron has an empty
-`ID` list, and some intron has no `ID` at all, `create_splice_sites` raises `KeyError`.  (In particular
-with `merge_attributes=False` the introns have no attributes, so every call that finds an intron fails.) -/
-theorem splice_sites_keyerror (s : Session) (exonType : Str) (gp pt : Option Str)
+/-- an intron without `ID` gives a site with the intron's attributes, unchanged -/
+theorem siteOf_noid (left : Bool) (nt : Str) (g : Feature) (hid : Dict.get? g.attrs "ID".toList = none) :
+    (siteOf left nt g).attrs = g.attrs := by
+  unfold siteOf
+  simp only [hid]
+
+/-- **`IndexError`** (the case excluded from `splice_sites_exact`): when the arguments are right, exons
+have integer coordinates, and some intron has an `ID` attribute with an empty value list,
+`create_splice_sites` raises `IndexError` (`attributes["ID"][0]`) — the only error the per-intron step can
+raise on that domain. -/
+theorem splice_sites_indexerror (s : Session) (exonType : Str) (gp pt : Option Str)
     (mergeAttrs numeric : Bool) (hc : ExonCoords s exonType) (ts : List Row)
     (hts : transcripts s gp pt = .ok ts)
-    (hne : ∀ t ∈ ts, ∀ g ∈ intronsOf s exonType [] mergeAttrs numeric t,
-      Dict.get? g.attrs "ID".toList ≠ some [])
     (hex : ∃ t ∈ ts, ∃ g ∈ intronsOf s exonType [] mergeAttrs numeric t,
-      Dict.get? g.attrs "ID".toList = none) :
-    createSpliceSites s exonType gp pt mergeAttrs numeric = .error .key := by
+      Dict.get? g.attrs "ID".toList = some []) :
+    createSpliceSites s exonType gp pt mergeAttrs numeric = .error .index := by
   rw [createSpliceSites_eq, hts]
   simp only [Except.bind]
-  have hside : sideM s exonType mergeAttrs numeric ts true = .error .key := by
+  have hside : sideM s exonType mergeAttrs numeric ts true = .error .index := by
     unfold sideM
     have hper : ∀ t ∈ ts,
         (interfeatures (interCfg s) (intronOpts (spliceType true t.strand) mergeAttrs numeric)
@@ -545,29 +580,34 @@ theorem splice_sites_keyerror (s : Session) (exonType : Str) (gp pt : Option Str
       rfl
     have hstep : ∀ t ∈ ts, ∀ g ∈ intronsOf s exonType [] mergeAttrs numeric t,
         (∃ y, siteM true (spliceType true t.strand) { g with ftype := spliceType true t.strand } = .ok y) ∨
-        siteM true (spliceType true t.strand) { g with ftype := spliceType true t.strand } = .error .key := by
-      intro t ht g hg
+        siteM true (spliceType true t.strand) { g with ftype := spliceType true t.strand } = .error .index := by
+      intro t _ g hg
       obtain ⟨a, b, ha, hb, _⟩ := gapsOf_coords _ _ _ g hg
       cases hv : Dict.get? g.attrs "ID".toList with
-      | none => exact Or.inr (siteM_key true _ g a b ha hb hv)
+      | none => exact Or.inl ⟨_, siteM_none true _ g a b ha hb hv⟩
       | some l =>
         cases l with
-        | nil => exact absurd hv (hne t ht g hg)
+        | nil => exact Or.inr (siteM_index true _ g a b ha hb hv)
         | cons v vs => exact Or.inl ⟨_, siteM_ok true _ g a b v vs ha hb hv⟩
+    have hbad : ∀ t ∈ ts, ∀ g ∈ intronsOf s exonType [] mergeAttrs numeric t,
+        Dict.get? g.attrs "ID".toList = some [] →
+        siteM true (spliceType true t.strand) { g with ftype := spliceType true t.strand } = .error .index := by
+      intro t _ g hg hv
+      obtain ⟨a, b, ha, hb, _⟩ := gapsOf_coords _ _ _ g hg
+      exact siteM_index true _ g a b ha hb hv
     have : ts.mapM (fun t =>
         (interfeatures (interCfg s) (intronOpts (spliceType true t.strand) mergeAttrs numeric)
           (exonsOf s t.id exonType)).bind (fun gaps => gaps.mapM (siteM true (spliceType true t.strand)))) =
-        .error .key := by
+        .error .index := by
       apply mapM_error_of_exists
       · intro t ht
         rw [hper t ht]
         by_cases hall : ∃ g ∈ intronsOf s exonType [] mergeAttrs numeric t,
-            Dict.get? g.attrs "ID".toList = none
+            Dict.get? g.attrs "ID".toList = some []
         · right
           apply mapM_error_of_exists _ _ _ (hstep t ht)
           obtain ⟨g, hg, hv⟩ := hall
-          obtain ⟨a, b, ha, hb, _⟩ := gapsOf_coords _ _ _ g hg
-          exact ⟨g, hg, siteM_key true _ g a b ha hb hv⟩
+          exact ⟨g, hg, hbad t ht g hg hv⟩
         · left
           apply GffProofs.mapM_ok
           intro g hg
@@ -578,17 +618,16 @@ theorem splice_sites_keyerror (s : Session) (exonType : Str) (gp pt : Option Str
             refine ⟨g, hg, ?_⟩
             obtain ⟨a, b, ha, hb, _⟩ := gapsOf_coords _ _ _ g hg
             cases hv : Dict.get? g.attrs "ID".toList with
-            | none => rfl
+            | none => rw [siteM_none true _ g a b ha hb hv] at h; cases h
             | some l =>
               cases l with
-              | nil => exact absurd hv (hne t ht g hg)
+              | nil => rfl
               | cons v vs => rw [siteM_ok true _ g a b v vs ha hb hv] at h; cases h
       · obtain ⟨t, ht, g, hg, hv⟩ := hex
         refine ⟨t, ht, ?_⟩
         rw [hper t ht]
         apply mapM_error_of_exists _ _ _ (hstep t ht)
-        obtain ⟨a, b, ha, hb, _⟩ := gapsOf_coords _ _ _ g hg
-        exact ⟨g, hg, siteM_key true _ g a b ha hb hv⟩
+        exact ⟨g, hg, hbad t ht g hg hv⟩
     rw [this]; rfl
   rw [hside]
 
@@ -606,6 +645,53 @@ theorem intron_attrs_nomerge (s : Session) (exonType newType : Str) (numeric : B
     obtain ⟨h, p, n⟩ := tr
     obtain ⟨pe, ns, _, _, _, _, _, _, _, _, _, _, hattrs, _⟩ := interfeature_fields _ _ h p n g ht
     rw [hattrs]; rfl
+
+/-- **`splice_sites_nomerge`**: with `merge_attributes=False` (exons stored with integer coordinates) the
+call succeeds — `ValueError` only from the argument check —, the result is all left sites followed by all
+right sites, and every site has NO attributes, the type `spliceType side strand` and the two-base
+geometry of `siteOf_geometry`.  (Before the repair of gffutils this call raised `KeyError('ID')` whenever
+a transcript had an intron: `splice_site.attributes["ID"][0]` on the empty attributes.) -/
+theorem splice_sites_nomerge (s : Session) (exonType newType : Str) (gp pt : Option Str) (numeric : Bool)
+    (hc : ExonCoords s exonType) :
+    createSpliceSites s exonType gp pt false numeric =
+      (SpecTranscripts s gp pt).map (fun ts =>
+        sitesOfSide s exonType newType false numeric ts true ++
+        sitesOfSide s exonType newType false numeric ts false) ∧
+    ∀ ts left, ∀ t ∈ ts, ∀ g ∈ intronsOf s exonType newType false numeric t,
+      siteOf left (spliceType left t.strand) g ∈ sitesOfSide s exonType newType false numeric ts left ∧
+      (siteOf left (spliceType left t.strand) g).attrs = [] ∧
+      (siteOf left (spliceType left t.strand) g).ftype = spliceType left t.strand ∧
+      ∃ a b, g.start = some a ∧ g.stop = some b ∧ a ≤ b ∧
+        (siteOf left (spliceType left t.strand) g).start = some (if left then a else b - 1) ∧
+        (siteOf left (spliceType left t.strand) g).stop = some (if left then a + 1 else b) := by
+  refine ⟨?_, ?_⟩
+  · apply splice_sites_exact s exonType newType gp pt false numeric hc
+    intro ts _ t _ g hg hv
+    rw [intron_attrs_nomerge s exonType [] numeric t g hg] at hv
+    cases hv
+  · intro ts left t ht g hg
+    have hattrs := intron_attrs_nomerge s exonType newType numeric t g hg
+    obtain ⟨a, b, ha, hb, hab⟩ := gapsOf_coords _ _ _ g hg
+    obtain ⟨h1, _, _, h4, h5⟩ := siteOf_geometry left (spliceType left t.strand) g a b ha hb
+    refine ⟨?_, ?_, h1, a, b, ha, hb, hab, h4, h5⟩
+    · unfold sitesOfSide
+      exact List.mem_flatMap.2 ⟨t, ht, List.mem_map_of_mem hg⟩
+    · rw [siteOf_noid left _ g (by rw [hattrs]; rfl), hattrs]
+
+/-- every site of `sitesOfSide` is the `siteOf` of an intron of one of the transcripts -/
+theorem mem_sitesOfSide (s : Session) (exonType newType : Str) (mergeAttrs numeric : Bool) (ts : List Row)
+    (left : Bool) (x : Feature) :
+    x ∈ sitesOfSide s exonType newType mergeAttrs numeric ts left ↔
+      ∃ t ∈ ts, ∃ g ∈ intronsOf s exonType newType mergeAttrs numeric t,
+        x = siteOf left (spliceType left t.strand) g := by
+  unfold sitesOfSide
+  rw [List.mem_flatMap]
+  constructor
+  · rintro ⟨t, ht, hx⟩
+    obtain ⟨g, hg, rfl⟩ := List.mem_map.1 hx
+    exact ⟨t, ht, g, hg, rfl⟩
+  · rintro ⟨t, ht, g, hg, rfl⟩
+    exact ⟨t, ht, List.mem_map_of_mem hg⟩
 
 /-! ### when do the introns carry an `ID`? -/
 
@@ -715,7 +801,7 @@ theorem splice_sites_exact_of_exon_ids (s : Session) (exonType newType : Str) (g
         sitesOfSide s exonType newType true numeric ts true ++
         sitesOfSide s exonType newType true numeric ts false) :=
   splice_sites_exact s exonType newType gp pt true numeric hc
-    (fun ts _ => introns_have_id s exonType numeric ts hx)
+    (fun ts _ => noEmptyId_of_haveId (introns_have_id s exonType numeric ts hx))
 
 /-! ### non-vacuity: the session `DbExportAux.Ex.sess` (one gene, two transcripts, six exons) -/
 
@@ -780,7 +866,7 @@ example : ∃ sites, createSpliceSites sess "exon".toList (some "gene".toList) n
        (some 38, some 39, "three_prime_cis_splice_site".toList),
        (some 118, some 119, "five_prime_cis_splice_site".toList)] := by
   have h := splice_sites_exact sess "exon".toList "intron".toList (some "gene".toList) none true false ex_coords
-    (fun ts _ => introns_have_id sess _ false ts ex_haveId)
+    (fun ts _ => noEmptyId_of_haveId (introns_have_id sess _ false ts ex_haveId))
   rw [← transcripts_spec, ex_transcripts] at h
   refine ⟨_, h, ?_⟩
   simp only [sitesOfSide, intronsOf, exonsOf, List.flatMap_cons, List.flatMap_nil, List.append_nil]
@@ -792,27 +878,25 @@ example : ∃ sites, createSpliceSites sess "exon".toList (some "gene".toList) n
   rw [ht1, ht2, k1, k2]
   decide +kernel
 
-/-- `merge_attributes=False`: the introns have no `ID`, the call raises `KeyError` -/
-example : createSpliceSites sess "exon".toList (some "gene".toList) none false false = .error .key := by
-  apply splice_sites_keyerror sess _ _ _ false false ex_coords [t1, t2] ex_transcripts
-  · intro t _ g hg
-    rw [intron_attrs_nomerge sess _ _ false t g hg]
-    intro h; cases h
-  · refine ⟨t1, List.mem_cons_self, ?_⟩
-    have hne : intronsOf sess "exon".toList [] false false t1 ≠ [] := by
-      intro h
-      have := congrArg (List.map cols) h
-      rw [intronsOf_geometry sess _ _ false false t1 ex_coords] at this
-      have ht1 : t1.id = "t1".toList := rfl
-      rw [ht1, kids_t1] at this
-      revert this
-      decide +kernel
-    cases hl : intronsOf sess "exon".toList [] false false t1 with
-    | nil => exact absurd hl hne
-    | cons g gs =>
-      refine ⟨g, List.mem_cons_self, ?_⟩
-      have := intron_attrs_nomerge sess "exon".toList [] false t1 g (by rw [hl]; exact List.mem_cons_self)
-      rw [this]; rfl
+/-- `merge_attributes=False`: the introns have no attributes; the call succeeds (it raised `KeyError`
+before the repair) and the four sites have the same geometry and labels, and empty attributes -/
+example : ∃ sites, createSpliceSites sess "exon".toList (some "gene".toList) none false false = .ok sites ∧
+    sites.map (fun g => (g.start, g.stop, g.ftype, g.attrs.isEmpty)) =
+      [(some 31, some 32, "five_prime_cis_splice_site".toList, true),
+       (some 111, some 112, "three_prime_cis_splice_site".toList, true),
+       (some 38, some 39, "three_prime_cis_splice_site".toList, true),
+       (some 118, some 119, "five_prime_cis_splice_site".toList, true)] := by
+  have h := (splice_sites_nomerge sess "exon".toList "intron".toList (some "gene".toList) none false ex_coords).1
+  rw [← transcripts_spec, ex_transcripts] at h
+  refine ⟨_, h, ?_⟩
+  simp only [sitesOfSide, intronsOf, exonsOf, List.flatMap_cons, List.flatMap_nil, List.append_nil]
+  have ht1 : t1.id = "t1".toList := rfl
+  have ht2 : t2.id = "t2".toList := rfl
+  have k1 := kids_t1
+  have k2 := kids_t2
+  unfold orderedKids at k1 k2
+  rw [ht1, ht2, k1, k2]
+  decide +kernel
 
 end Examples
 
